@@ -544,6 +544,13 @@ class ExprMixin:
         if recv.is_py and isinstance(recv.py, (list, tuple, str)) and all(x is None or is_const(x) for x in (lo, hi, step)):
             r = recv.py[slice(lo and lo.py, hi and hi.py, step and step.py)]
             return Val.const(r) if not ops._has_val(r) else Val(PYOBJ, None, r, True)
+        if isinstance(recv.ty, T.Tuple) and not recv.is_py and all(x is None or is_const(x) for x in (lo, hi, step)):
+            # a slice of a fixed-length tuple value with constant bounds: the python tuple of the selected components
+            sv = recv.ty.sort()
+            comps = [Val(it, sv.accessor(0, k)(lift(recv))) for k, it in enumerate(recv.ty.items)]
+            sel = comps[slice(lo and lo.py, hi and hi.py, step and step.py)]
+            tt = T.Tuple(*[c_.ty for c_ in sel])
+            return Val(tt, tt.sort().mk(*[c_.term for c_ in sel]))  # a typed tuple value (can be compared, stored in lists)
         if step is not None:
             raise Unsupported("slice step on a symbolic sequence", node)
         t = recv.ty
